@@ -111,6 +111,11 @@ def run(ctx):
     for tab in ([], ["--table"]):
         cvecs.append({"id": "devfull-toprank-noqueries" + ("-table" if tab else ""), "fam": "cli", "sig": "toprank", "files": nq, "reps": 1,
                       "args": ["updown", "topranking", "-q", "@q0.csv", "-t", "@m.fasta", "-r", "@ref.fa", "--size-total", "4"] + tab + ["-o", "/dev/full"]})
+    for c in ("toma", "snps", "snps-agg", "udlist", "closest", "closestntable", "toprank", "variants"):
+        a = [x for x in CLI[c] if x not in ("-o", "@OUT")]
+        cvecs.append({"id": "closedpipe-" + c, "fam": "cli", "sig": c.split("-")[0], "files": FILES, "args": a, "reps": 1, "stdout_mode": "closed"})
+    cvecs.append({"id": "closedpipe-topa", "fam": "cli", "sig": "topa", "files": FILES, "args": ["sam", "toPairAlign", "-s", "@in.sam", "-r", "@ref.fa", "-o", "stdout"],
+                  "reps": 1, "stdout_mode": "closed"})
     # toPairAlign writes by itself: stdout and one file per query
     topa = ["sam", "toPairAlign", "-s", "@in.sam", "-r", "@ref.fa"]
     kmax = 12 if quick else 12
